@@ -36,4 +36,16 @@ PROPS = {
         quick=dict(shards=16, checks=1500, extra=["TestQuota", "TestExhaustiveDiff", dict(run="TestExhaustive", shards=4)], timeout=600),
         thorough=dict(shards=16, checks=25000, extra=["TestQuota", "TestExhaustiveDiff", dict(run="TestExhaustive", shards=16)], timeout=3000),
     ),
+    "C13": dict(
+        pkg="c13",
+        technique="differential property-based testing (rapid) against an independent T.81 Annex H encoder and decoder, both directions",
+        level_text="Exploration: direction A feeds every library encoder entry (predictors 0-7, SV1 package, .57/.70 registry codecs) to the reference decoder; direction B feeds reference-encoder streams over predictor x precision x Td assignment x table kind (standard, optimal, random canonical) x segment layout to the library decoders.",
+        level_note="Trusts harness/ref/t81 (self-tested encoder<->decoder, written from the standard) and the Go runtime.",
+        rule=("rapid-generated differential experiments: images as in C02; direction A (library encoder -> ref decoder) or B (ref encoder -> library "
+              "decoder) with drawn predictor, per-component Td in 0..3, table kinds std/stddesc/opt/rand, APPn/COM segments, DHT placement, component ids. "
+              "Non-trivial: image has >= 2 rows, >= 2 columns and >= 2 distinct values (edge rules exercised). Distinct = hash of the case descriptor."),
+        assumptions=COMMON_ASSUME + ["harness/ref/t81 implements T.81 Annex H correctly (checked by its own round-trip self-test and by agreement with the library on predictor 1)"],
+        quick=dict(shards=16, checks=1200, extra=["TestQuota"], timeout=600),
+        thorough=dict(shards=16, checks=25000, extra=["TestQuota"], timeout=3000),
+    ),
 }
